@@ -62,8 +62,10 @@ def build_tracking_series(case):
     bound = min(0.5 * spacing, 0.08 * ext) * case.get("bound_factor", 0.45)
     n = case["nframes"]
     disp = [np.zeros(len(base.topo.J), dtype=complex)]
+    st = case.get("stretch", 1.0)
     for t in range(1, n):
-        disp.append(disp[-1] + displacement_field(rng, case.get("field", "random"), base.topo.J + disp[-1], bound))
+        d = displacement_field(rng, case.get("field", "random"), base.topo.J + disp[-1], bound)
+        disp.append(disp[-1] + (d.real + 1j * d.imag / st))      # the bound refers to physical displacements
     frames = statics.build_series(case, n, disp=disp, renumber=case.get("renumber", True))
     s = Series()
     s.case, s.frames_sc, s.bound, s.spacing, s.ext = case, frames, bound, spacing, ext
